@@ -325,7 +325,12 @@ StepIn(m, f, l) ==
     IF ty = "SETTINGS" /\ ok /\ ~f.ack THEN [mm EXCEPT !.owed = Append(m.owed, f.set)]
     ELSE IF ty = "SETTINGS" /\ ok /\ f.ack
     THEN IF m.sentSet = <<>> THEN [mm EXCEPT !.tainted = TRUE]
-         ELSE [mm EXCEPT !.sentSet = Tail(m.sentSet), !.la = MergeSettings(m.la, Head(m.sentSet))]
+         ELSE LET la2 == MergeSettings(m.la, Head(m.sentSet))
+              IN [mm EXCEPT !.sentSet = Tail(m.sentSet), !.la = la2,
+                            \* a lowered INITIAL_WINDOW_SIZE can exhaust a stream's window without any DATA
+                            !.st = [y \in DOMAIN mm.st |->
+                                      IF la2.iws < m.la.iws /\ mm.st[y].i = "open" /\ SatAdd(Max(la2.iws, 0), mm.st[y].rsw) <= 0
+                                      THEN [mm.st[y] EXCEPT !.zeroed = TRUE] ELSE mm.st[y]]]
     ELSE IF ty = "PING" /\ ok /\ ~f.ack THEN [mm EXCEPT !.pongs = Append(m.pongs, f.pl)]
     ELSE IF ty = "WINDOW_UPDATE" /\ ok
     THEN IF f.inc = 0 THEN [mm EXCEPT !.tainted = TRUE]
@@ -435,7 +440,14 @@ StepApi(m, e, l) ==
 \* ==== quiescence ====================================================================
 
 \* bytes of stream s that the application still legitimately holds or has not read
-HeldBy(x) == IF x.rdead THEN 0 ELSE x.rcvd - x.rel
+\* - received and not yet handed over: held as long as the receive handle exists (the application can still read or
+\*   must drop it); never for a stream E reset before it reached the application;
+\* - handed over and not yet released: held as long as ANY handle of the stream exists (a FlowControl clone may still
+\*   release it; h2 returns it when the last reference goes away).
+HeldBy(x) ==
+    IF x.rstOut > 0 /\ ~x.surfaced THEN 0
+    ELSE (IF x.recvDrop THEN 0 ELSE Max(0, x.rcvd - x.dlv))
+       + (IF x.recvDrop /\ x.sendDrop THEN 0 ELSE Max(0, x.dlv - x.rel))
 
 StepQ(m, e, l) ==
     IF ~Alive(m) \/ e.wblocked[m.role] \/ m.tainted THEN m
@@ -452,9 +464,9 @@ StepQ(m, e, l) ==
                          IF respDropped # {} THEN "data_buffered_for_dropped_response_future_while_send_handle_lives"
                          ELSE <<m.rcw, heldAll>>)
               ELSE m1
-        stuck == {s \in DOMAIN m.st : /\ m.st[s].zeroed /\ ~m.st[s].rdead /\ m.st[s].i = "open"
+        stuck == {s \in DOMAIN m.st : /\ m.st[s].zeroed /\ ~m.st[s].rdead /\ ~m.st[s].recvDrop /\ m.st[s].i = "open"
                                        /\ m.st[s].o # "rst" /\ HeldBy(m.st[s]) = 0}
-        m3 == IF \E s \in DOMAIN m.st : m.st[s].zeroed /\ ~m.st[s].rdead /\ m.st[s].i = "open"
+        m3 == IF \E s \in DOMAIN m.st : m.st[s].zeroed /\ ~m.st[s].rdead /\ ~m.st[s].recvDrop /\ m.st[s].i = "open"
               THEN Check(m2, "C03.stream_leak", stuck = {}, l, IF stuck = {} THEN 0 ELSE CHOOSE s \in stuck : TRUE, stuck)
               ELSE m2
         \* C17: reset obligations
